@@ -24,6 +24,7 @@ type GenOpts struct {
 	ActorBias int // weight of actor steps (default 15)
 	Rules     []string
 	RealCrypto bool
+	MinFaulty int // at least this many faulty replicas (bounded by f)
 	ActorWeights map[int]int // overrides the default weights of actor action kinds
 }
 
@@ -48,7 +49,7 @@ func GenConfig(rt *rapid.T, o GenOpts) Config {
 	}
 	cfg.Batch = rapid.IntRange(1, 3).Draw(rt, "batch")
 	f := hotstuff.NumFaulty(cfg.N)
-	nf := rapid.IntRange(0, f).Draw(rt, "nfaulty")
+	nf := rapid.IntRange(min(o.MinFaulty, f), f).Draw(rt, "nfaulty")
 	ids := rapid.Permutation(seqInts(cfg.N)).Draw(rt, "faultyids")[:nf]
 	for _, id := range ids {
 		var kinds []string
